@@ -345,6 +345,16 @@ def outdir(prop):
     return d
 
 
+def scratch_dir(prop):
+    """per-run scratch directory for container files: tmpfs when available (SQLite fsyncs dominate otherwise)"""
+    import atexit
+    base = "/dev/shm" if os.path.isdir("/dev/shm") and os.access("/dev/shm", os.W_OK) else OUT
+    d = os.path.join(base, "verif_scratch_%s_%d" % (prop, os.getpid()))
+    os.makedirs(d, exist_ok=True)
+    atexit.register(lambda: shutil.rmtree(d, ignore_errors=True))
+    return d
+
+
 def read_ndjson(path):
     with open(path) as f:
         return [json.loads(l) for l in f if l.strip()]
